@@ -27,6 +27,32 @@ type alt struct {
 	Err bool // the documented outcome is an error
 }
 
+// mctx collects what the model says about the step besides the post-state:
+// whether any target matched, and which objects changed their name (new
+// "pkg.key" -> old key) so that differences can be located.
+type mctx struct {
+	matched bool
+	inexact bool // some match relied on case folding
+	renames map[string]string
+}
+
+func (c *mctx) renamed(pkg, newKey, oldKey string) {
+	if c.renames == nil {
+		c.renames = map[string]string{}
+	}
+	c.renames[pkg+"."+newKey] = oldKey
+}
+
+// touched marks an object / a field as a target of the transformation even
+// when its content stays the same (e.g. fields_set_required on a field that
+// is already required): PassesTrail may grow there. The marker lives in the
+// trail, so it disappears from the content comparison (trails are stripped)
+// and makes the object differ from the pre-state in the frame comparison.
+const touchMark = "\x00touched-by-model"
+
+func touchObj(o *mObj)              { o.O.PassesTrail = append(o.O.PassesTrail, touchMark) }
+func touchField(f *ast.StructField) { f.PassesTrail = append(f.PassesTrail, touchMark) }
+
 type objRef struct{ Pkg, Name string }
 type fieldRef struct{ Pkg, Obj, Field string }
 
@@ -46,12 +72,22 @@ func parseFieldRef(s string) fieldRef {
 	return fieldRef{p[0], p[1], p[2]}
 }
 
-func (r objRef) matches(p *mSchema, o *mObj) bool {
-	return p.Package == r.Pkg && strings.EqualFold(o.O.Name, r.Name)
+// matches: the anchored matching rule. c only records whether some match
+// relied on case folding (used to label failure kinds, not to decide anything).
+func (r objRef) matches(c *mctx, p *mSchema, o *mObj) bool {
+	ok := p.Package == r.Pkg && strings.EqualFold(o.O.Name, r.Name)
+	if ok && o.O.Name != r.Name {
+		c.inexact = true
+	}
+	return ok
 }
 
-func (r fieldRef) matches(p *mSchema, o *mObj, f *ast.StructField) bool {
-	return p.Package == r.Pkg && strings.EqualFold(o.O.Name, r.Obj) && strings.EqualFold(f.Name, r.Field)
+func (r fieldRef) matches(c *mctx, p *mSchema, o *mObj, f *ast.StructField) bool {
+	ok := p.Package == r.Pkg && strings.EqualFold(o.O.Name, r.Obj) && strings.EqualFold(f.Name, r.Field)
+	if ok && (o.O.Name != r.Obj || f.Name != r.Field) {
+		c.inexact = true
+	}
+	return ok
 }
 
 func one(s mState) []alt { return []alt{{S: s}} }
@@ -84,12 +120,12 @@ func (s mState) eachField(f func(p *mSchema, o *mObj, fld *ast.StructField)) {
 // `to`, it keeps its position; every reference that resolved to it (refs,
 // constant refs, discriminator mappings incl. those kept in hints, entry
 // point, map index types) now names `to`. No match: identity.
-func modelRenameObject(s mState, from objRef, to string) []alt {
+func modelRenameObject(c *mctx, s mState, from objRef, to string) []alt {
 	var hitP *mSchema
 	var hit *mObj
 	n := 0
 	s.eachObject(func(p *mSchema, o *mObj) {
-		if from.matches(p, o) {
+		if from.matches(c, p, o) {
 			n++
 			hitP, hit = p, o
 		}
@@ -97,6 +133,7 @@ func modelRenameObject(s mState, from objRef, to string) []alt {
 	if n == 0 {
 		return one(s)
 	}
+	c.matched = true
 	if n > 1 {
 		// lenient: two objects (names differing in case) would both be
 		// renamed to one name; the documentation does not define the outcome.
@@ -106,7 +143,9 @@ func modelRenameObject(s mState, from objRef, to string) []alt {
 	if old != to && hitP.index(to) >= 0 {
 		return nil // lenient: the new name is taken; outcome undefined
 	}
+	c.renamed(hitP.Package, to, hit.Key)
 	hit.O.Name, hit.O.SelfRef.ReferredType, hit.Key = to, to, to
+	touchObj(hit)
 	if old == to {
 		return one(s)
 	}
@@ -152,18 +191,20 @@ func modelRenameObject(s mState, from objRef, to string) []alt {
 
 // omit {objects}: the matched objects are removed; the relative order of the
 // rest is kept; references to them are not rewritten.
-func modelOmit(s mState, refs []objRef) []alt {
+func modelOmit(c *mctx, s mState, refs []objRef) []alt {
 	for _, p := range s {
 		var keep []mObj
 		for i := range p.Objects {
 			drop := false
 			for _, r := range refs {
-				if r.matches(p, &p.Objects[i]) {
+				if r.matches(c, p, &p.Objects[i]) {
 					drop = true
 				}
 			}
 			if !drop {
 				keep = append(keep, p.Objects[i])
+			} else {
+				c.matched = true
 			}
 		}
 		p.Objects = keep
@@ -173,7 +214,7 @@ func modelOmit(s mState, refs []objRef) []alt {
 
 // omit_fields {fields}: the matched fields are removed from their struct
 // object; non-struct objects untouched.
-func modelOmitFields(s mState, refs []fieldRef) []alt {
+func modelOmitFields(c *mctx, s mState, refs []fieldRef) []alt {
 	s.eachObject(func(p *mSchema, o *mObj) {
 		if o.O.Type.Kind != ast.KindStruct || o.O.Type.Struct == nil {
 			return
@@ -183,12 +224,15 @@ func modelOmitFields(s mState, refs []fieldRef) []alt {
 			f := &o.O.Type.Struct.Fields[i]
 			drop := false
 			for _, r := range refs {
-				if r.matches(p, o, f) {
+				if r.matches(c, p, o, f) {
 					drop = true
 				}
 			}
 			if !drop {
 				keep = append(keep, *f)
+			} else {
+				c.matched = true
+				touchObj(o)
 			}
 		}
 		o.O.Type.Struct.Fields = keep
@@ -199,12 +243,14 @@ func modelOmitFields(s mState, refs []fieldRef) []alt {
 // add_fields {to,fields}: each given field whose name is not already present
 // (exact match: "existing fields will not be overwritten") is appended in the
 // given order; error if the target is not a struct.
-func modelAddFields(s mState, to objRef, fields []ast.StructField) []alt {
+func modelAddFields(c *mctx, s mState, to objRef, fields []ast.StructField) []alt {
 	isErr := false
 	s.eachObject(func(p *mSchema, o *mObj) {
-		if !to.matches(p, o) {
+		if !to.matches(c, p, o) {
 			return
 		}
+		c.matched = true
+		touchObj(o)
 		if o.O.Type.Kind != ast.KindStruct || o.O.Type.Struct == nil {
 			isErr = true
 			return
@@ -239,6 +285,7 @@ func placeNew(s mState, pkg string, obj ast.Object) []alt {
 	}
 	a, b, c := s, s.clone(), s.clone()
 	a.pkg(pkg).Objects[i] = mObj{Key: obj.Name, O: obj.DeepCopy()}
+	touchObj(&a.pkg(pkg).Objects[i])
 	pb := b.pkg(pkg)
 	pb.Objects = append(append(append([]mObj{}, pb.Objects[:i]...), pb.Objects[i+1:]...), mObj{Key: obj.Name, O: obj.DeepCopy()})
 	return []alt{{S: a}, {S: b}, {S: c}}
@@ -246,10 +293,11 @@ func placeNew(s mState, pkg string, obj ast.Object) []alt {
 
 // add_object {object,as,comments}: a new object pkg.Name with type `as` and
 // the comments is appended to package pkg. Package absent: identity.
-func modelAddObject(s mState, ref objRef, as ast.Type, comments []string) []alt {
+func modelAddObject(c *mctx, s mState, ref objRef, as ast.Type, comments []string) []alt {
 	if s.pkg(ref.Pkg) == nil {
 		return one(s)
 	}
+	c.matched = true
 	obj := ast.Object{Name: ref.Name, Comments: append([]string(nil), comments...), Type: as.DeepCopy(), SelfRef: ast.RefType{ReferredPkg: ref.Pkg, ReferredType: ref.Name}}
 	return placeNew(s, ref.Pkg, obj)
 }
@@ -259,7 +307,7 @@ func modelAddObject(s mState, ref objRef, as ast.Type, comments []string) []alt 
 // (case-insensitive), appended to the target package; source untouched.
 // Source or target package absent: identity ("if the source object isn't
 // found, this pass does nothing").
-func modelDuplicateObject(s mState, src, as objRef, omit []string) []alt {
+func modelDuplicateObject(c *mctx, s mState, src, as objRef, omit []string) []alt {
 	if s.pkg(as.Pkg) == nil {
 		return one(s)
 	}
@@ -269,7 +317,7 @@ func modelDuplicateObject(s mState, src, as objRef, omit []string) []alt {
 		for i := range p.Objects {
 			if p.Objects[i].O.Name == src.Name {
 				exact = &p.Objects[i]
-			} else if src.matches(p, &p.Objects[i]) {
+			} else if src.matches(c, p, &p.Objects[i]) {
 				folded = append(folded, i)
 			}
 		}
@@ -295,6 +343,7 @@ func modelDuplicateObject(s mState, src, as objRef, omit []string) []alt {
 		}
 		return placeNew(base, as.Pkg, d)
 	}
+	c.matched = exact != nil || len(folded) > 0
 	if exact != nil {
 		return dup(s, *exact)
 	}
@@ -311,11 +360,13 @@ func modelDuplicateObject(s mState, src, as objRef, omit []string) []alt {
 
 // retype_object {object,as,comments}: the object's type becomes `as`;
 // comments replaced only when given.
-func modelRetypeObject(s mState, ref objRef, as ast.Type, comments []string) []alt {
+func modelRetypeObject(c *mctx, s mState, ref objRef, as ast.Type, comments []string) []alt {
 	s.eachObject(func(p *mSchema, o *mObj) {
-		if !ref.matches(p, o) {
+		if !ref.matches(c, p, o) {
 			return
 		}
+		c.matched = true
+		touchObj(o)
 		o.O.Type = as.DeepCopy()
 		if comments != nil {
 			o.O.Comments = append([]string(nil), comments...)
@@ -327,15 +378,17 @@ func modelRetypeObject(s mState, ref objRef, as ast.Type, comments []string) []a
 // retype_field {field,as,comments}: the first matching field's type becomes
 // `as`; comments replaced only when given. "First" is read per object (first
 // alternative) or over the whole IR (second alternative).
-func modelRetypeField(s mState, ref fieldRef, as ast.Type, comments []string) []alt {
+func modelRetypeField(c *mctx, s mState, ref fieldRef, as ast.Type, comments []string) []alt {
 	apply := func(st mState, global bool) mState {
 		done := false
 		var last *mObj
 		st.eachField(func(p *mSchema, o *mObj, f *ast.StructField) {
-			if !ref.matches(p, o, f) || (global && done) || (!global && last == o) {
+			if !ref.matches(c, p, o, f) || (global && done) || (!global && last == o) {
 				return
 			}
 			done, last = true, o
+			c.matched = true
+			touchField(f)
 			f.Type = as.DeepCopy()
 			if comments != nil {
 				f.Comments = append([]string(nil), comments...)
@@ -353,10 +406,12 @@ func modelRetypeField(s mState, ref fieldRef, as ast.Type, comments []string) []
 // fields_set_required: matched fields get Required = true, Type.Nullable =
 // false; default kept. fields_set_not_required: Required = false,
 // Type.Nullable = true; default kept.
-func modelFieldsSetRequired(s mState, refs []fieldRef, required bool) []alt {
+func modelFieldsSetRequired(c *mctx, s mState, refs []fieldRef, required bool) []alt {
 	s.eachField(func(p *mSchema, o *mObj, f *ast.StructField) {
 		for _, r := range refs {
-			if r.matches(p, o, f) {
+			if r.matches(c, p, o, f) {
+				c.matched = true
+				touchField(f)
 				f.Required = required
 				f.Type.Nullable = !required
 			}
@@ -373,11 +428,13 @@ type defaultEntry struct {
 // fields_set_default {defaults}: matched fields get Type.Default = value. If
 // two references match one field with different values either value is
 // accepted (the order dependence is C03's subject).
-func modelFieldsSetDefault(s mState, entries []defaultEntry) []alt {
+func modelFieldsSetDefault(c *mctx, s mState, entries []defaultEntry) []alt {
 	apply := func(st mState, order []defaultEntry) mState {
 		st.eachField(func(p *mSchema, o *mObj, f *ast.StructField) {
 			for _, e := range order {
-				if e.Ref.matches(p, o, f) {
+				if e.Ref.matches(c, p, o, f) {
+					c.matched = true
+					touchField(f)
 					f.Type.Default = e.Value
 				}
 			}
@@ -402,9 +459,13 @@ func modelFieldsSetDefault(s mState, entries []defaultEntry) []alt {
 // to `to`; nullability, default and hints of the referring position kept.
 // Whether the entry point type (a ref kept beside the entry point's *name*)
 // is one of "every ref" is left open: both are accepted.
-func modelReplaceReference(s mState, from, to objRef) []alt {
+func modelReplaceReference(c *mctx, s mState, from, to objRef) []alt {
 	repl := func(t *ast.Type) {
 		if t.Kind == ast.KindRef && t.Ref != nil && t.Ref.ReferredPkg == from.Pkg && strings.EqualFold(t.Ref.ReferredType, from.Name) {
+			c.matched = true
+			if t.Ref.ReferredType != from.Name {
+				c.inexact = true
+			}
 			t.Ref.ReferredPkg, t.Ref.ReferredType = to.Pkg, to.Name
 		}
 	}
@@ -422,12 +483,12 @@ func modelReplaceReference(s mState, from, to objRef) []alt {
 // scalars become a one-member enum (name = value); other matched objects
 // untouched. Whether nullability/default/hints of the replaced type survive
 // is not documented: both are accepted.
-func modelConstantToEnum(s mState, refs []objRef) []alt {
+func modelConstantToEnum(c *mctx, s mState, refs []objRef) []alt {
 	apply := func(st mState, keep bool) mState {
 		st.eachObject(func(p *mSchema, o *mObj) {
 			hit := false
 			for _, r := range refs {
-				if r.matches(p, o) {
+				if r.matches(c, p, o) {
 					hit = true
 				}
 			}
@@ -443,6 +504,8 @@ func modelConstantToEnum(s mState, refs []objRef) []alt {
 			if keep {
 				n.Nullable, n.Default, n.Hints = t.Nullable, t.Default, t.Hints
 			}
+			c.matched = true
+			touchObj(o)
 			o.O.Type = n
 		})
 		return st
@@ -456,13 +519,16 @@ func modelConstantToEnum(s mState, refs []objRef) []alt {
 
 // trim_enum_values: every string enum value loses leading/trailing spaces;
 // member names untouched.
-func modelTrimEnumValues(s mState) []alt {
+func modelTrimEnumValues(c *mctx, s mState) []alt {
 	s.walkAll(func(t *ast.Type) {
 		if t.Kind != ast.KindEnum || t.Enum == nil {
 			return
 		}
 		for i, v := range t.Enum.Values {
 			if str, ok := v.Value.(string); ok {
+				if strings.Trim(str, " ") != str {
+					c.matched = true
+				}
 				t.Enum.Values[i].Value = strings.Trim(str, " ")
 			}
 		}
@@ -472,11 +538,13 @@ func modelTrimEnumValues(s mState) []alt {
 
 // hint_object {object,hints}: the given hints are set on the object's type
 // (existing other hints kept).
-func modelHintObject(s mState, ref objRef, hints map[string]any) []alt {
+func modelHintObject(c *mctx, s mState, ref objRef, hints map[string]any) []alt {
 	s.eachObject(func(p *mSchema, o *mObj) {
-		if !ref.matches(p, o) {
+		if !ref.matches(c, p, o) {
 			return
 		}
+		c.matched = true
+		touchObj(o)
 		if o.O.Type.Hints == nil {
 			o.O.Type.Hints = ast.JenniesHints{}
 		}
@@ -488,9 +556,10 @@ func modelHintObject(s mState, ref objRef, hints map[string]any) []alt {
 }
 
 // schema_set_identifier {package,identifier}: Metadata.Identifier of that package.
-func modelSchemaSetIdentifier(s mState, pkg, id string) []alt {
+func modelSchemaSetIdentifier(c *mctx, s mState, pkg, id string) []alt {
 	for _, p := range s {
 		if p.Package == pkg {
+			c.matched = true
 			p.Metadata.Identifier = id
 		}
 	}
@@ -499,9 +568,10 @@ func modelSchemaSetIdentifier(s mState, pkg, id string) []alt {
 
 // schema_set_entry_point {package,entry_point}: EntryPoint and EntryPointType
 // (a ref to it) of that package.
-func modelSchemaSetEntryPoint(s mState, pkg, ep string) []alt {
+func modelSchemaSetEntryPoint(c *mctx, s mState, pkg, ep string) []alt {
 	for _, p := range s {
 		if p.Package == pkg {
+			c.matched = true
 			p.EntryPoint = ep
 			p.EntryPointType = ast.Type{Kind: ast.KindRef, Ref: &ast.RefType{ReferredPkg: pkg, ReferredType: ep}}
 		}
@@ -514,10 +584,11 @@ func modelSchemaSetEntryPoint(s mState, pkg, ep string) []alt {
 // prefix: identity. References to objects that are not loaded are not covered
 // by the text: prefixed or left alone are both accepted. Enum member names are
 // blanked by the comparison (DESIGN §C15 lenience).
-func modelPrefixObjectNames(s mState, prefix string) []alt {
+func modelPrefixObjectNames(c *mctx, s mState, prefix string) []alt {
 	if prefix == "" {
 		return one(s)
 	}
+	c.matched = true
 	apply := func(pre, st mState, dangling bool) mState {
 		for _, p := range st {
 			if p.EntryPoint != "" {
@@ -525,9 +596,11 @@ func modelPrefixObjectNames(s mState, prefix string) []alt {
 			}
 			for i := range p.Objects {
 				o := &p.Objects[i]
+				c.renamed(p.Package, prefix+o.O.Name, o.Key)
 				o.O.Name = prefix + o.O.Name
 				o.O.SelfRef.ReferredType = o.O.Name
 				o.Key = o.O.Name
+				touchObj(o)
 			}
 		}
 		fixMapping := func(d *ast.DisjunctionType) {
@@ -563,7 +636,8 @@ func modelPrefixObjectNames(s mState, prefix string) []alt {
 }
 
 // AppendCommentObjects(c): c appended to every object's comments, nothing else.
-func modelAppendComment(s mState, c string) []alt {
-	s.eachObject(func(_ *mSchema, o *mObj) { o.O.Comments = append(o.O.Comments, c) })
+func modelAppendComment(c *mctx, s mState, comment string) []alt {
+	c.matched = true
+	s.eachObject(func(_ *mSchema, o *mObj) { touchObj(o); o.O.Comments = append(o.O.Comments, comment) })
 	return one(s)
 }
